@@ -529,8 +529,19 @@ def classify(f):
     return f[0]
 
 
-def p_impl(batch, optsets):
-    """-> list of violations dict(kind, finding, opts[, opts2])"""
+def nested_pairs(optsets):
+    """all pairs o < o' (componentwise inclusion) among the given option sets"""
+    out = []
+    for a in optsets:
+        for b in optsets:
+            if a != b and set(a[0]) <= set(b[0]) and (not a[1] or b[1]):
+                out.append((a, b))
+    return out
+
+
+def p_impl(batch, optsets, pairs=None):
+    """-> list of violations dict(kind, finding, opts[, opts2]); pairs: explicit list of (o, o') to compare for monotonicity
+    (default: the covering pairs of the lattice that are present)"""
     viol = []
     res = batch.results
     for o in optsets:
@@ -545,6 +556,15 @@ def p_impl(batch, optsets):
                 viol.append(dict(kind="severity-not-enabled", finding=f, opts=o))
             if finc and not inc:
                 viol.append(dict(kind="inconclusive-not-enabled", finding=f, opts=o))
+    if pairs is not None:
+        for o, u in pairs:
+            if o not in res or u not in res:
+                continue
+            a = collections.Counter(f for f in res[o] if f[0] not in META_IDS)
+            b = collections.Counter(f for f in res[u] if f[0] not in META_IDS)
+            for f, k in (a - b).items():
+                viol.append(dict(kind="not-monotone", finding=f, opts=o, opts2=u))
+        return viol
     # monotonicity on the covering pairs of the option lattice
     for o in optsets:
         if o not in res:
@@ -708,6 +728,80 @@ def guided_batches(new_gate, new_inc, new_pos=()):
     return out
 
 
+# ---- programs in which ONE token carries several matching values of different kinds -----------------------------------------
+# (unconditional / possible, inconclusive after a call of an undeclared function, conditional from a later or earlier test, default
+# argument): the value a selector (ValueFlow::findValue, Token::getValueLE/GE, getInvalidValue, getMaxValue(condition)) picks must
+# not depend on the enabled severities / certainty.  Every template is run under {}, {inconclusive}, {warning},
+# {warning, inconclusive}, {all} and compared on ALL nested pairs.
+
+SELECT_OPTSETS = [((), False), ((), True), (("warning",), False), (("warning",), True), (tuple(GATED), True)]
+
+# sink: (name, prelude, declaration of the variable kind, use expression with %s, bad values, type of the variable)
+SINKS = [
+    ("arrayIndex", "int arr[10];\n", "int r = arr[%s];", [-1, -2, 10, 12, 20], "int"),
+    ("zerodiv", "", "int r = 1000 / %s;", [0, 0, 0], "int"),
+    ("shift", "", "int r = 1 << %s;", [-1, -3, 40, 64], "int"),
+    ("shiftlhs", "", "int r = %s << 2;", [-1, -5], "int"),
+    ("overflow", "", "int r = %s * 1000000;", [100000, 200000, -100000], "int"),
+    ("funcarg", "#include <cstring>\nchar buf[10];\n", "memset(buf, 0, %s); int r = 0;", [-1, -2], "int"),
+    ("container", "#include <vector>\n", "std::vector<int> v(3); int r = v[%s];", [3, 5, 10, -1], "int"),
+    ("stringidx", "#include <string>\n", "std::string s(\"abc\"); int r = s[%s];", [5, 9], "int"),
+    ("signconv", "", "unsigned int r = 10U * %s;", [-1, -7], "int"),
+    ("nullptr", "", "int r = *%s;", [0, 0], "int *"),
+]
+
+
+def select_templates(rng):
+    files = []
+    for name, prelude, use, bad, ty in SINKS:
+        k = 0
+        for init in ("direct", "cond", "param", "defarg"):
+            for call in ("none", "byval", "byaddr"):
+                for cond in ("none", "after", "before"):
+                    if init == "param" and cond == "none":
+                        continue
+                    a, b = rng.choice(bad), rng.choice(bad)
+                    if len(set(bad)) > 1:
+                        while b == a:
+                            b = rng.choice(bad)
+                    av, bv = ("0" if (ty != "int" and a == 0) else str(a)), ("0" if (ty != "int" and b == 0) else str(b))
+                    params, body = ["int c"], []
+                    if init == "direct":
+                        body.append("%s x = %s;" % (ty, av))
+                    elif init == "cond":
+                        body.append("%s x = %s; if (c) x = %s;" % (ty, "&c" if ty != "int" else ("1" if name != "overflow" else "1"), av))
+                    elif init == "param":
+                        params.append("%s x" % ty)
+                    else:
+                        params.append("%s x = %s" % (ty, av))
+                    if cond == "before":
+                        body.append("if (x == %s) {}" % bv)
+                    if call == "byval":
+                        body.append("dostuff(x);")
+                    elif call == "byaddr":
+                        body.append("dostuff(&x);")
+                    body.append(use % "x")
+                    if cond == "after":
+                        body.append("if (x == %s) {}" % bv)
+                    body.append("return r;")
+                    code = prelude + "int f(%s) {\n    %s\n}\n" % (", ".join(params), "\n    ".join(body))
+                    files.append(("sel_%s_%02d_%s_%s_%s.cpp" % (name, k, init, call, cond), code))
+                    k += 1
+    return files
+
+
+def select_batches(rng):
+    files = select_templates(rng)
+    out = []
+    per = 110
+    for i in range(0, len(files), per):
+        b = Batch("select%d" % (i // per), files[i:i + per])
+        b.optsets = list(SELECT_OPTSETS)
+        b.pairs = nested_pairs(SELECT_OPTSETS)
+        out.append(b)
+    return out
+
+
 def witness_batches():
     """all witnesses of corpus/C27/witnesses.json in one directory (replayed first, under every closed option set)"""
     ws = load_witnesses()
@@ -849,7 +943,7 @@ def run(ctx, res):
               "" if (len(got) == len(exp) and not diff) else "lengths %d/%d first differences %s %s" % (len(got), len(exp), diff[:5], err[-200:]))
     # ---- corpus and the real binary -------------------------------------------------------------------------------------
     wb = witness_batches()
-    batches = wb + sample_batches(rng, thorough) + cfg_batches(rng, thorough) + snippet_batches(rng, thorough)
+    batches = wb + select_batches(rng) + sample_batches(rng, thorough) + cfg_batches(rng, thorough) + snippet_batches(rng, thorough)
     guided = guided_batches(new_gate, new_inc, new_pos)
     res.extra["guided_search_files"] = sum(len(b.files) for b in guided)
     batches += guided
@@ -888,7 +982,10 @@ def run(ctx, res):
                          dict(file=b.name + "/" + fn, enabled=list(o[0]), inconclusive=o[1],
                               findings=[list(x) for x in fs if x[4] == fn][:4]) if (len(res.samples) < 10 and per_file_nt.get(fn, 0) > 0 and o[0]) else None)
         res.count("batch:" + b.name.split("_")[0].rstrip("0123456789"))
-        for v in p_impl(b, bopts):
+        vs = p_impl(b, bopts)
+        if getattr(b, "pairs", None):
+            vs += [v for v in p_impl(b, bopts, pairs=b.pairs) if v["kind"] == "not-monotone"]
+        for v in vs:
             k = viol_key(v)
             nviol[k] += 1
             if k in seen_keys:
